@@ -480,12 +480,12 @@ def stress_traces(ctx, pid, binp):
     import subprocess
     quick = ctx.tier == "quick"
     files = []
-    for k in range(2 if quick else 12):
+    for k in range(3 if quick else 16):
         tf = os.path.join(ctx.scratch, "stress-%d.ndjson" % k)
         env = dict(os.environ)
         env["VERIF_TRACE"] = tf
         try:
-            p = subprocess.run([binp, "stress", "-seed", str(ctx.seed * 100 + k), "-rounds", "2" if quick else "4"],
+            p = subprocess.run([binp, "stress", "-seed", str(ctx.seed * 100 + k), "-rounds", "3" if quick else "4"],
                                env=env, capture_output=True, text=True, timeout=300)
         except subprocess.TimeoutExpired:
             ctx.log("stress run %d timed out (skipped)" % k)
